@@ -31,6 +31,19 @@ CHECKS = {
         note=('Trusted: the reference operator table (gen_expr.py), Python float() as correctly rounded conversion, the oracle '
               'server dump (public accessors only). Contexts: S_EXPRESSION (quick) plus query, update-list and initialiser contexts (thorough).'),
     ),
+    'C03': dict(
+        engine='oracle-server roundtrip action + Hypothesis + depth-2 enumeration (harness/py/prop_C03.py, gen_query.py)',
+        technique='round-trip property-based testing: parse -> str() -> parse -> str(), canonical trees compared (alpha-normalised binders, bit-exact doubles); operator-pair enumeration; typed query generators for every query form; failures localised to a minimal subtree before matching known findings',
+        category='exploration',
+        text=('For untyped expression trees (all depth-2 operator pairs + random trees) and typed queries of every query form '
+              'on three model flavours, the library\'s own string conversion must not throw, its output must be accepted in the '
+              'same scope without diagnostics, give a structurally equal tree and print identically again. Inputs that do not '
+              'parse cleanly are outside the domain and counted as filtered.'),
+        design_ref='DESIGN.md 4/C03',
+        note=('Tree equality is decided on the oracle server\'s canonical dump, not on expression_t::equal (which compares binder '
+              'symbols by identity). One recorded finding (control: A[p U q] hands out a tree that is not a query by itself) is '
+              'excluded by exact descriptor and counted.'),
+    ),
     'C18': dict(
         engine='rapidcheck + exhaustive loops (harness/cpp/c18.cpp)',
         technique='exhaustive enumeration over int8_t + rapidcheck property-based testing over int32_t/double against set semantics in wide arithmetic',
